@@ -163,6 +163,50 @@ CHECKS.update({
         note="Pairings, prime generation, soundness against cheating provers and zero-knowledge are outside TLA+ (stated limits)."),
 })
 
+CHECKS.update({
+    "C05": dict(
+        category="model_checking", design_ref="DESIGN.md section 4, Onion.tla + C05",
+        technique="TLA+ spec Onion.tla model-checked by TLC with two originators sharing relay/exit and forged creates (also for "
+                  "ids in use), forged/replayed destroys, injected and spliced cells; real TunnelCommunity nodes with up to 6 "
+                  "concurrent circuits stepped action by action under the same attacks on real bytes; every recorded execution "
+                  "validated by TLC (OnionTrace.tla: ExitOnlyOwn, ReturnIntegrity, NoShadow, EntriesStable, "
+                  "DestroyOnlyFromNeighbour, UnknownCellsInert)",
+        text="Isolation invariants and action properties hold in every state/step TLC explores and on every recorded execution of "
+             "the real nodes; a scripted run sends a create for every circuit id in use at every node (both sides of the 60 s "
+             "cache) and forged/replayed destroys from non-neighbours.",
+        note="Symbolic AEAD/DH; the signature check of destroy itself is C01; replayed destroys are sent with the spoofed source "
+             "of their signer (address re-learning of the community layer is not modelled)."),
+    "C08": dict(
+        category="model_checking", design_ref="DESIGN.md section 4, Onion.tla + C08",
+        technique="TLA+ spec Onion.tla with symbolic Diffie-Hellman (key = initiator ephemeral, responder ephemeral, responder static; "
+                  "auth covers the ephemeral half only) model-checked by TLC under every manipulation of created/extended answers; "
+                  "the same manipulations applied to real plaintext created cells with real DH at every hop position; executions "
+                  "validated by TLC (NoForeignKey, KeyAgreement, AnswerMustMatch, hops immutable) plus probes on the real key bytes",
+        text="TLC shows that no manipulation (wrong identifier, other circuit, substituted ephemeral with correct auth, flipped auth/"
+             "candidates, duplicates, answers after retry) yields a hop key known to anyone but the selected peer, and the real "
+             "originator/relays follow the spec step by step under those manipulations.",
+        note="X25519/HMAC/HKDF idealised; a malicious relay on the path is represented by manipulations of the created it forwards."),
+    "C09": dict(
+        category="fault_enumeration", design_ref="DESIGN.md section 4, Onion.tla + C09",
+        technique="TLA+ spec Onion.tla with discrete clock (sweeps, retry/cache time-outs, delayed removals) model-checked by TLC with one "
+                  "(thorough two) disturbance(s): loss, teardown by originator/relay/exit, vanishing originator; fault enumeration on "
+                  "real nodes under the virtual clock: hop count x phase x tearing-down party x every subset (<=2, thorough 3) of lost "
+                  "control messages, time advanced past the bound; each run validated by TLC (Reclaimed in every state, Quiet + "
+                  "closed outside sockets at the deadline, JoinLimit, RelayEarlyBudget)",
+        text="Bounded-time reclamation is an invariant of the timed spec and is evaluated by TLC on every enumerated fault run of the "
+             "real nodes with their default timers; join limit and relay_early budget are action property / invariant.",
+        note="Bounds from the default settings in force; max_time (1 h) as last resort is not reached; pings are off in the MC configs."),
+    "C14": dict(
+        category="model_checking", design_ref="DESIGN.md section 4, C14",
+        technique="TLA+ spec Kademlia.tla (bit-sequence ids, buckets, eviction, split on own path, brute-force IsClosest) model-checked by "
+                  "TLC; state graphs replayed on the real RoutingTable (every enabled action from every reached state); seeded "
+                  "160-bit histories up to 2000 nodes and all closest_nodes answers validated by TLC (KademliaTrace.tla); "
+                  "generate_id decided by the spec's GenerateId action",
+        text="Tree shape, ownership, capacity, split-only-on-own-path and exactness of k-closest are invariants checked by TLC on "
+             "reduced-width ids exhaustively and on the real tables of long real-width histories.",
+        note="Eviction choice among BAD / slow nodes left open in the spec (the code's choice is one of them)."),
+})
+
 PENDING_REASON = "check not built yet in this round (planned, see DESIGN.md section 9); no claim is made"
 
 
